@@ -159,7 +159,7 @@ def render_part(ctx):
 class Batch:
     """one harness corpus run: records, diagnostics, tables"""
 
-    def __init__(self, ctx, name, files, widths, family, manifest=None):
+    def __init__(self, ctx, name, files, widths, family, manifest=None, id_base=0):
         self.ctx, self.name, self.family, self.widths = ctx, name, family, widths
         self.manifest = manifest or {}
         self.base = os.path.join(ctx.work, name)
@@ -167,7 +167,7 @@ class Batch:
         with open(self.list, "w") as f:
             f.write("\n".join(files) + "\n")
         self.cmd = [VFMT, "corpus", self.list] + [str(w) for w in widths] + ["-o", self.base + ".rec", "-d", self.base + ".diag",
-                                                                             "-t", self.base + ".tab"]
+                                                                             "-t", self.base + ".tab", "-b", str(id_base)]
 
     def load(self):
         self.recs = {}
@@ -190,11 +190,33 @@ class Batch:
         return self.tokid[k]
 
 
-def validate(ctx, path, what, timeout=1800):
-    r = tlc("FormatRel", cfg="FormatRel.cfg", cwd=CODEC, workers=8, timeout=timeout, env={"RECS": path}, heap="10g")
-    tlc_must_pass(r, "FormatRel " + what)
-    ctx.tlc_stats(r, "FormatRel record validation " + what)
-    return {v["id"]: v for v in tlc_prints(r)}
+def validate(ctx, paths, what, timeout=2400):
+    """one TLC run per group of record files (<= ~120 MB of JSON each)"""
+    if isinstance(paths, str):
+        paths = [paths]
+    groups, cur, size = [], [], 0
+    for p in paths:
+        sz = os.path.getsize(p)
+        if cur and size + sz > 120e6:
+            groups.append(cur); cur, size = [], 0
+        cur.append(p); size += sz
+    if cur:
+        groups.append(cur)
+    out = {}
+    for gi, g in enumerate(groups):
+        path = g[0]
+        if len(g) > 1:
+            path = os.path.join(ctx.work, f"merged{ctx._nmerge if hasattr(ctx, '_nmerge') else 0}.rec")
+            ctx._nmerge = getattr(ctx, "_nmerge", 0) + 1
+            with open(path, "wb") as f:
+                for p in g:
+                    f.write(open(p, "rb").read())
+        r = tlc("FormatRel", cfg="FormatRel.cfg", cwd=CODEC, workers=8, timeout=timeout, env={"RECS": path}, heap="12g")
+        tlc_must_pass(r, "FormatRel " + what)
+        ctx.tlc_stats(r, f"FormatRel record validation {what} ({gi + 1}/{len(groups)})")
+        for v in tlc_prints(r):
+            out[v["id"]] = v
+    return out
 
 
 # ---- Tokens: construct classes ------------------------------------------------------------------
@@ -330,10 +352,11 @@ def excerpt(b, side, k, n=6):
     return " ".join(b.tok(t[0])[1] for t in side[max(0, k - n):k]) + "  >>>  " + " ".join(b.tok(t[0])[1] for t in side[k:k + n])
 
 
-def tokens_law(ctx, b, stuck):
-    """stuck: {record id: verdict}. Returns {record id: (classes, residual or None)}"""
+def tokens_law(ctx, owner, stuck):
+    """stuck: {record id: verdict}; owner: {record id: batch}. Returns {record id: state with classes / residual}"""
     state = {}
     for rid, v in stuck.items():
+        b = owner[rid]
         r, d = b.recs[rid], b.diag[rid]
         I = list(zip(r["I"], side_tags(len(r["I"]), d.get("iu"), d.get("im"), d.get("iac"))))
         O = list(zip(r["O"], side_tags(len(r["O"]), d.get("ou"), d.get("om"), d.get("oac"))))
@@ -343,6 +366,7 @@ def tokens_law(ctx, b, stuck):
         for rid, s in state.items():
             if s["done"]:
                 continue
+            b = owner[rid]
             i, j = s["at"]
             if s["first"] is None:
                 s["first"] = dict(i=i, j=j, input=excerpt(b, s["I"], i), output=excerpt(b, s["O"], j))
@@ -359,13 +383,13 @@ def tokens_law(ctx, b, stuck):
             todo.append(rid)
         if not todo:
             break
-        path = os.path.join(ctx.work, f"{b.name}.norm{rnd}.rec")
+        path = os.path.join(ctx.work, f"norm{rnd}.rec")
         with open(path, "w") as f:
             for rid in todo:
-                r = dict(b.recs[rid]); s = state[rid]
+                r = dict(owner[rid].recs[rid]); s = state[rid]
                 r["I"] = [t[0] for t in s["I"]]; r["O"] = [t[0] for t in s["O"]]
                 f.write(json.dumps(r) + "\n")
-        vs = validate(ctx, path, f"{b.name} after removing known construct classes, round {rnd}")
+        vs = validate(ctx, path, f"after removing named construct classes, round {rnd}")
         for rid in todo:
             v = vs[rid]
             if v["tokens"]:
@@ -386,17 +410,25 @@ def culprit_key(law, q):
     return f"{law}:{q['shape']}:after={q['after']}/{q['after_parent']}:before={q['before']}/{q['before_parent']}"
 
 
-def process_batch(ctx, b, origin_keys):
-    """validate one batch with TLC and report. origin_keys[(file, width, law)] = keys reported for repository files."""
-    b.load()
-    verdicts = validate(ctx, b.base + ".rec", b.name)
-    if set(verdicts) != set(b.recs):
-        raise ToolError(f"TLC emitted {len(verdicts)} verdicts for {len(b.recs)} records ({b.name})")
+def process_all(ctx, batches):
+    for b in batches:
+        b.load()
+    verdicts = validate(ctx, [b.base + ".rec" for b in batches], "repository files + layout mutants")
+    owner = {rid: b for b in batches for rid in b.recs}
+    if set(verdicts) != set(owner):
+        raise ToolError(f"TLC emitted {len(verdicts)} verdicts for {len(owner)} records")
+    stuck = {rid: v for rid, v in verdicts.items() if v["total"] and not v["tokens"]}
+    tstate = tokens_law(ctx, owner, stuck) if stuck else {}
+    origin_keys = {}
+    for b in batches:          # repository batches come first: their keys are inherited by mutants of the same file
+        report_batch(ctx, b, verdicts, tstate, origin_keys)
+
+
+def report_batch(ctx, b, verdicts, tstate, origin_keys):
+    """origin_keys[(file, width, law)] = keys reported for repository files."""
     ctx.add("formatter_runs_recorded", len(b.recs))
     ctx.add("input_tokens_aligned", sum(len(r["I"]) for r in b.recs.values()))
     fam = b.family
-    stuck = {rid: v for rid, v in verdicts.items() if v["total"] and not v["tokens"]}
-    tstate = tokens_law(ctx, b, stuck) if stuck else {}
     jobs = []          # explain jobs for mutants
     pending = {}       # (rid, law) -> base info
     ok = 0
@@ -538,20 +570,9 @@ def run(ctx):
         mut_origins, per_file, mut_widths = 700, 10, [1, 20, 40, 90, 200]
     nproc = 4
     chunks = [sample[k::nproc] for k in range(nproc)]
-    batches = [Batch(ctx, f"repo{k}", ch, widths, "repo") for k, ch in enumerate(chunks) if ch]
-    t0 = time.time()
-    summ = run_parallel([b.cmd for b in batches], timeout=1500)
-    skipped = [s for x in summ for s in x["skipped"]]
-    ctx.add("files_skipped_input_not_syntactically_valid", len(skipped))
-    ctx.extra["skipped_inputs"] = skipped[:40]
-    log(f"corpus: {sum(x['records'] for x in summ)} records from {len(sample)} files x widths {widths} in {time.time() - t0:.0f}s; skipped {len(skipped)}")
-    origin_keys = {}
-    for b in batches:
-        process_batch(ctx, b, origin_keys)
-
-    # mutants: origins = small valid files of the sample (so that their unmodified records exist)
-    skipped_set = {s["file"] for s in skipped}
-    small = [f for f in sample if f not in skipped_set and os.path.getsize(f) < 6000]
+    batches = [Batch(ctx, f"repo{k}", ch, widths, "repo", id_base=(k + 1) * 10_000_000) for k, ch in enumerate(chunks) if ch]
+    # mutants: origins = small files of the sample (so that the records of the unmodified files exist)
+    small = [f for f in sample if os.path.getsize(f) < 6000]
     origins = sorted(rnd.sample(small, min(mut_origins, len(small))))
     mdir = os.path.join(ctx.work, "mutants")
     olist = os.path.join(ctx.work, "mutant_origins.list")
@@ -560,21 +581,23 @@ def run(ctx):
     ms = harness_json([VFMT, "mutants", olist, mdir, ctx.seed, per_file], timeout=900)[-1]
     ctx.extra["mutants"] = ms
     ctx.add("layout_mutants", ms["mutants"])
+    if ms["mutants"] == 0:
+        raise ToolError("no layout mutants were generated")
     manifest = {}
     for l in open(os.path.join(mdir, "manifest.ndjson")):
         m = json.loads(l); manifest[m["file"]] = m
     mfiles = sorted(manifest)
-    if ms["mutants"] == 0:
-        raise ToolError("no layout mutants were generated")
-    # the unmodified origins at the mutant widths (needed for "inherited" findings) are part of the repo batches
-    assert set(mut_widths) <= set(widths)
+    assert set(mut_widths) <= set(widths)      # the unmodified origins at the mutant widths are in the repo batches
     chunks = [mfiles[k::nproc] for k in range(nproc)]
-    mb = [Batch(ctx, f"mut{k}", ch, mut_widths, "mutant", manifest) for k, ch in enumerate(chunks) if ch]
+    batches += [Batch(ctx, f"mut{k}", ch, mut_widths, "mutant", manifest, id_base=(k + 11) * 10_000_000) for k, ch in enumerate(chunks) if ch]
     t0 = time.time()
-    summ = run_parallel([b.cmd for b in mb], timeout=1500)
-    log(f"mutants: {sum(x['records'] for x in summ)} records from {len(mfiles)} mutants of {len(origins)} files x widths {mut_widths} in {time.time() - t0:.0f}s")
-    for b in mb:
-        process_batch(ctx, b, origin_keys)
+    summ = run_parallel([b.cmd for b in batches], timeout=1800)
+    skipped = [s for x in summ for s in x["skipped"]]
+    ctx.add("files_skipped_input_not_syntactically_valid", len(skipped))
+    ctx.extra["skipped_inputs"] = skipped[:40]
+    log(f"corpus: {sum(x['records'] for x in summ)} formatter runs recorded ({len(sample)} repository files x widths {widths}, "
+        f"{len(mfiles)} mutants of {len(origins)} files x widths {mut_widths}) in {time.time() - t0:.0f}s; skipped {len(skipped)} unparsable inputs")
+    process_all(ctx, batches)
     ctx.sample({"record": "test/fmt/use_sort.dora width 90: Tokens rejected at `foo :: { >>> C , B` vs `A , B`; accepted after removing `use` items -> tokens-changed:use-reorder"})
     ctx.cov["rule"] = ("quick: seeded sample of 250 repository files x widths {20,90} + 8 layout mutants of 70 small files; thorough: all files x "
                        "widths {1,20,40,90,200} + 10 mutants of 700 small files")
